@@ -546,3 +546,188 @@ def c13_e(ctx):
                   node=sites[0] if sites else f.node)
     if n < 6:
         ctx.undecided('expected the statistics helpers, found {}'.format(n))
+
+
+def _falls_off(fn):
+    cfg = cfg_of(fn)
+    return [p for (p, lab) in cfg.ret.pred
+            if not (p.kind == 'stmt' and isinstance(p.ast, ast.Return))]
+
+
+def _guarded(ctx, fn, node, pats, pol):
+    return any(p == pol and match_any(t, pats) is not None for (t, p, _) in ctx.guards(fn, node))
+
+
+@obligation('C13-f', 'T8 T11', 'defaults apply only when the argument is missing; what was computed '
+            'is what is returned (mixture density, sampler output, normalised parameters)',
+            floor=9,
+            necessary='equal weights substituted for given ones, or an exit that drops the '
+                      'accumulated value, is another function of the sample')
+def c13_f(ctx):
+    from .base import bind_args
+    # (a) equal weights exactly when none are given
+    wv = ctx.fn(U + ':weighted_var')
+    gm = ctx.cls(U + ':GMDistribution')
+    npar = gm.lookup('_normalize_params')
+    if npar is None:
+        raise AnchorMissing('GMDistribution._normalize_params')
+    ctx.touch(npar)
+    for f in (wv, npar):
+        ex = ctx.ex(f)
+        dflt = [n for n in own_nodes(f.node) if isinstance(n, ast.Assign) and
+                isinstance(n.targets[0], ast.Name) and n.targets[0].id == 'weights' and
+                match_any(ex.raw(n.value), ('np.ones(_)', 'np.ones_like(_)', 'np.full(_, _)'))
+                is not None]
+        ok = len(dflt) == 1 and _guarded(ctx, f, dflt[0], ('weights is None',), True)
+        ctx.check(ok, f, 'equal weights exactly when none are given',
+                  'if weights is None: weights = np.ones(n)',
+                  'given weights are replaced by equal weights (or None is used as weights)',
+                  fn=f, node=dflt[0] if dflt else f.node)
+    # (b) normalised parameters: (means, weights) in this order, weights always normalised
+    ex = ctx.ex(npar)
+    rr = returns(npar)
+    ok = len(rr) == 1 and not _falls_off(npar)
+    if ok:
+        t = ex.term(rr[0].value)
+        ok = t[0] == 'tuple' and len(t[1]) == 2 and \
+            match(t[1][1], pattern('normalize_weights(_w)')) is not None and \
+            match(t[1][0], pattern('np.atleast_1d(np.squeeze(means))')) is not None
+    ctx.check(ok, npar, 'returns (means, normalised weights)',
+              'return means, normalize_weights(weights)',
+              'the parameter normalisation does not return (means, normalised weights) in this '
+              'order', fn=npar, node=rr[0] if rr else npar.node)
+    for name in ('pdf', 'rvs'):
+        f = ctx.own_method(gm, name)
+        exf = ctx.ex(f)
+        cs = ctx.calls(f, resolved_to=npar) or ctx.calls(f, 'cls._normalize_params(*_)')
+        ok = len(cs) == 1
+        if ok:
+            b = bind_args(cs[0], npar, skip_self=False)
+            ok = b is not None and set(b) == {'means', 'weights'} and \
+                all(exf.term(v) == ('param', k) for (k, v) in b.items())
+            st = getattr(cs[0], '_parent', None)
+            ok = ok and isinstance(st, ast.Assign) and isinstance(st.targets[0], ast.Tuple) and \
+                [getattr(e, 'id', None) for e in st.targets[0].elts] == ['means', 'weights'] and \
+                cfg_of(f).must_pass([ctx.node(f, st)])
+        ctx.check(ok, f, '{}: parameters normalised first, unpacked in order'.format(name),
+                  'means, weights = cls._normalize_params(means, weights)',
+                  '{} does not normalise (means, weights) and unpack them in the same order'
+                  .format(name), fn=f, node=cs[0] if cs else f.node)
+    # (c) the density: every exit returns the accumulated sum; squeezed only to undo the
+    # promotion of a scalar / single point
+    pdf = ctx.own_method(gm, 'pdf')
+    ex = ctx.ex(pdf)
+    acc = [n for n in own_nodes(pdf.node) if isinstance(n, ast.AugAssign) and
+           isinstance(n.op, ast.Add) and isinstance(n.target, ast.Name) and
+           enclosing_loop(n) is not None]
+    rr = returns(pdf)
+    ok = len(acc) == 1 and bool(rr) and not _falls_off(pdf)
+    if ok:
+        d = acc[0].target.id
+        for r in rr:
+            v = _ret_value(ex, pdf, ctx, r, (d,))
+            plain = v == ('name', d)
+            sq = match_any(v, ('{}.squeeze()'.format(d), 'np.squeeze({})'.format(d))) is not None
+            ok = ok and (plain or sq) and \
+                cfg_of(pdf).must_precede([cfg_of(pdf).by_stmt[id(enclosing_loop(acc[0]))]],
+                                         ctx.node(pdf, r))
+            if sq:
+                grp = [g for g in ctx.guard_groups(pdf, r)]
+                ok = ok and any(
+                    p and unweak_(t)[0] == 'bool' and unweak_(t)[1] == 'or' and
+                    match(unweak_(t), pattern(
+                        'np.asanyarray(x).ndim == 0 or (np.asanyarray(x).ndim == 1 and '
+                        '_m.ndim == 2)')) is not None
+                    for g in grp for (t, p) in g)
+    ctx.check(ok, pdf, 'density returned on every exit; squeezed only for a scalar / single point',
+              'return d.squeeze() if ndim == 0 or (ndim == 1 and means.ndim == 2) else d',
+              'an exit of pdf does not return the accumulated density (or squeezes it under '
+              'another condition than `the input was a scalar or one point`)', fn=pdf,
+              node=rr[0] if rr else pdf.node)
+    prom = [n for n in own_nodes(pdf.node) if isinstance(n, ast.Assign) and
+            isinstance(n.targets[0], ast.Name) and n.targets[0].id == 'x']
+    want = {1: 'np.atleast_1d(x)', 2: 'np.atleast_2d(x)'}
+    okp = len(prom) == 2
+    for n in prom:
+        k = [k_ for (k_, p_) in want.items() if match(ex.raw(n.value), pattern(p_)) is not None]
+        okp = okp and len(k) == 1 and _guarded(ctx, pdf, n, ('means.ndim == {}'.format(k[0]),
+                                                             '_m.ndim == {}'.format(k[0])), True)
+    ctx.check(okp, pdf, 'points promoted to the components\' dimension',
+              'x = atleast_1d(x) if means.ndim == 1; atleast_2d(x) if means.ndim == 2',
+              'the evaluation points are not promoted to match the dimension of the means',
+              fn=pdf, node=prom[0] if prom else pdf.node)
+    # (d) the sampler returns its buffer (one row of it when size is None)
+    rv = ctx.own_method(gm, 'rvs')
+    ex = ctx.ex(rv)
+    rr = returns(rv)
+    bufs = [n for n in own_nodes(rv.node) if isinstance(n, ast.Assign) and
+            isinstance(n.targets[0], ast.Name) and
+            match_any(ex.raw(n.value), ('np.empty(_)', 'np.zeros(_)')) is not None]
+    ok = len(bufs) == 1 and bool(rr) and not _falls_off(rv)
+    if ok:
+        o = bufs[0].targets[0].id
+        kinds = set()
+        for r in rr:
+            v = _ret_value(ex, rv, ctx, r, (o,))
+            if v == ('name', o):
+                kinds.add(('all', _guarded(ctx, rv, r, ('size is None',), True) or
+                           _flag_guard(ctx, rv, ex, r, True)))
+            elif match(v, pattern('{}[0]'.format(o))) is not None:
+                kinds.add(('first', _guarded(ctx, rv, r, ('size is None',), True) or
+                           _flag_guard(ctx, rv, ex, r, True)))
+            else:
+                kinds.add(('other', False))
+        ok = kinds == {('all', False), ('first', True)}
+    ctx.check(ok, rv, 'sampler returns its buffer (its only row when size is None)',
+              'return output[0] if size was None else output',
+              'rvs does not return the filled buffer, or unwraps it under another condition '
+              'than `size is None`', fn=rv, node=rr[0] if rr else rv.node)
+    sz = [n for n in own_nodes(rv.node) if isinstance(n, ast.Assign) and
+          isinstance(n.targets[0], ast.Name) and n.targets[0].id == 'size']
+    ok = len(sz) == 1 and ex.raw(sz[0].value) == ('const', 1) and \
+        _guarded(ctx, rv, sz[0], ('size is None',), True)
+    ctx.check(ok, rv, 'one point when size is None', 'if size is None: size = 1',
+              'the requested size is replaced (or None is used as a size)', fn=rv,
+              node=sz[0] if sz else rv.node)
+
+
+def _ret_value(ex, fn, ctx, r, keep):
+    """raw value of a return; a temporary that only holds the returned expression is looked
+    through (names in `keep` are never expanded)."""
+    v = ex.raw(r.value)
+    if v[0] == 'name' and v[1] not in keep:
+        defs = ex.reaching(v[1], ctx.node(fn, r))
+        if len(defs) == 1 and defs[0].kind == 'assign':
+            return ex.raw(defs[0].payload)
+    return v
+
+
+def unweak_(t):
+    from .base import unweak
+    return unweak(t)
+
+
+def _flag_guard(ctx, fn, ex, node, want):
+    """node is guarded by a boolean local that is True exactly on the `size is None` branch."""
+    for (t, p, ta) in ctx.guards(fn, node):
+        if t[0] == 'unary':
+            continue        # the negated statement of the same test: its plain form is listed too
+        while isinstance(ta, ast.UnaryOp) and isinstance(ta.op, ast.Not):
+            ta = ta.operand  # (the polarity p belongs to the plain term t, not to the test text)
+        if isinstance(ta, ast.Name):
+            name = ta.id
+            defs = [n for n in own_nodes(fn.node) if isinstance(n, ast.Assign) and
+                    isinstance(n.targets[0], ast.Name) and n.targets[0].id == name]
+            if len(defs) == 2 and all(isinstance(d.value, ast.Constant) and
+                                      isinstance(d.value.value, bool) for d in defs):
+                ok = all(_guarded(ctx, fn, d, ('size is None',), d.value.value) for d in defs)
+                if ok:
+                    return p == want
+            if len(defs) == 1 and match(ex.raw(defs[0].value), pattern('size is None')) \
+                    is not None and not any(
+                        isinstance(n, ast.Assign) and isinstance(n.targets[0], ast.Name) and
+                        n.targets[0].id == 'size' and
+                        cfg_of(fn).exists_path(ctx.node(fn, n), ctx.node(fn, defs[0]))
+                        for n in own_nodes(fn.node)):
+                return p == want
+    return False
